@@ -593,12 +593,15 @@ def py_oracle(spaces):
 
 
 def defined_of(spaces):
-    return {s: {k: {n: m[1] for n, m in o[k].items() if not m[0]} for k in ("cells", "refs")} for s, o in spaces.items()}
+    return {s: {"cells": {n: m[1] for n, m in o["cells"].items() if not m[0]},
+                "refs": {n: m[1] for n, m in o["refs"].items() if not m[0]},
+                "direct": list(o["direct"])} for s, o in spaces.items()}
 
 
 def frame_oracle(ops, steps):
-    """(P, part 2) the DEFINED members are exactly what the history defined: an accepted edit changes the
-    defined members of its own space as it says and of no other space, a rejected one changes nothing.
+    """(P, part 2) the DEFINED members and the direct bases are exactly what the history defined: an accepted
+    edit changes the defined members / direct bases of its own space as it says and of no other space, a
+    rejected one changes nothing.
     Returns None or (step index, text)."""
     prev = {}
     for i, (op, st) in enumerate(zip(ops, steps)):
@@ -606,9 +609,16 @@ def frame_oracle(ops, steps):
         k = op[0]
         if st["out"] == ACCEPTED:
             if k == "NewSpace":
-                exp[op[1]] = {"cells": {}, "refs": {}}
+                exp[op[1]] = {"cells": {}, "refs": {}, "direct": []}
+            if k in ("NewSpace", "AddBases"):
+                for b in op[2]:
+                    exp[op[1]]["direct"] = add_base(exp[op[1]]["direct"], b)
+            elif k == "RemoveBases":
+                exp[op[1]]["direct"] = [b for b in exp[op[1]]["direct"] if b not in op[2]]
             elif k == "DelSpace":
                 exp.pop(op[1], None)
+                for v in exp.values():
+                    v["direct"] = [b for b in v["direct"] if b != op[1]]
             elif k in ("NewCells", "SetFormula"):
                 exp[op[1]]["cells"][op[2]] = op[3]
             elif k in ("NewRef", "ChangeRef"):
@@ -623,7 +633,7 @@ def frame_oracle(ops, steps):
         cur = defined_of(st["spaces"])
         if cur != exp:
             diff = [(s_, cur.get(s_), exp.get(s_)) for s_ in sorted(set(cur) | set(exp)) if cur.get(s_) != exp.get(s_)]
-            return i, "defined members after %r (outcome %s) are not the ones the history defined: (space, actual, expected) = %r" % (op, st["out"], diff[:3])
+            return i, "defined members / direct bases after %r (outcome %s) are not the ones the history defined: (space, actual, expected) = %r" % (op, st["out"], diff[:3])
         prev = cur
     return None
 
@@ -834,5 +844,10 @@ def replay(data):
         why = py_oracle(st["spaces"]) if st["spaces"] is not None else st["exc"]
         print(op, "->", st["out"], st["exc"] or "", "| oracle:", why or "ok")
         bad += why is not None
+    fo = frame_oracle(ops, res["steps"])
+    if fo is not None:
+        print("step %d: %s" % fo)
+        bad += 1
     print(script_of(ops))
+    print("REPLAY: property fails" if bad else "REPLAY: property holds on this history")
     return 1 if bad else 0
